@@ -138,4 +138,35 @@ def Request.inDomainB (q : Request) : Bool :=
   decide (SortedB q.sortedTags) &&
   q.hostname.head? != some (ch '.') && q.sourceHostname.head? != some (ch '.')
 
+/-- Two client sets with the same host names (as sorted lists) and the same subnets up to order. -/
+def Clients.PermEquiv : Option Clients → Option Clients → Prop
+  | none, none => True
+  | some a, some b => a.hosts = b.hosts ∧ a.nets.Perm b.nets
+  | _, _ => False
+
+/-- `r'` is `r` with the VALUES of the list-valued modifiers written in another order:
+    `$domain`, `$denyallow`, `$dnstype` lists are permutations of each other (the parser keeps the
+    written order), `$ctag` lists and `$client` host names are equal (the parser sorts them, and a
+    sorted list is determined by its multiset, see `sortB_eq_of_perm`), `$client` subnets are
+    permutations; everything else is equal. -/
+structure NetRule.PermEquiv (r r' : NetRule) : Prop where
+  text : r.text = r'.text
+  listID : r.listID = r'.listID
+  whitelist : r.whitelist = r'.whitelist
+  pattern : r.pattern = r'.pattern
+  shortcut : r.shortcut = r'.shortcut
+  permDomains : r.permDomains.Perm r'.permDomains
+  restrDomains : r.restrDomains.Perm r'.restrDomains
+  denyallow : r.denyallow.Perm r'.denyallow
+  permDns : r.permDns.Perm r'.permDns
+  restrDns : r.restrDns.Perm r'.restrDns
+  permTags : r.permTags = r'.permTags
+  restrTags : r.restrTags = r'.restrTags
+  permClients : Clients.PermEquiv r.permClients r'.permClients
+  restrClients : Clients.PermEquiv r.restrClients r'.restrClients
+  enabled : r.enabled = r'.enabled
+  disabled : r.disabled = r'.disabled
+  permTypes : r.permTypes = r'.permTypes
+  restrTypes : r.restrTypes = r'.restrTypes
+
 end UF
